@@ -144,3 +144,74 @@ Theorem C15_seq : forall (s s1 : seq) (others os : list seq) (a : list msg) (as_
     Ok (mkseq (merge_abs a as_) (normalise (to_rel (merge_abs a as_))) true false, os).
 Proof. exact C15_proofs.seq_merge_spec. Qed.
 Print Assumptions C15_seq.
+
+(* ---------------------------------------------------------------- sounding-set clause, through normalise *)
+From Proofs Require Import C04_sort C07_proofs Sound_glue C15_sound.
+(* Definitions (Proofs/Sound_glue.v):  nnt l := all times >= 0;
+     sdepth k t l := #note-ons of k with time < t  -  #note-offs of k with time <= t;
+     sbal l := for every key of l, sdepth >= 0 at every tick of l and #on = #off  (sbal_spec: then sdepth >= 0 at
+               EVERY tick: each note-off closes a note of its key that started STRICTLY earlier; every note is closed);
+     nover l := depth_at <= 1 everywhere (no two notes of a key overlap);
+     swf l := per key the note messages strictly alternate in list order (on, strictly later off, on, ...);
+     tsorted := C04_sort.tsorted (times non-decreasing). *)
+
+(* clause "the set of sounding (channel, pitch, tick) triples equals the union of the inputs' sets, overlapping notes
+   of the same channel and pitch being fused into one note" -- FULL for inputs without zero-length notes:
+   for absolute inputs with non-negative times and sbal (inputs need not be sorted and MAY overlap each other and
+   themselves on a key), the absolute view of the merged, normalised sequence sounds at (k, t) iff one of the inputs
+   does; that view is time-sorted, strictly alternating per key (so overlapping notes have become one note from the
+   earliest start to the latest end) and satisfies the hypotheses again *)
+Theorem C15_sound : forall (a : list msg) (others : list (list msg)),
+  forallb nnt (a :: others) = true -> forallb sbal (a :: others) = true ->
+  let v := to_abs (normalise (to_rel (merge_abs a others))) in
+  (forall k t, C15_proofs.sounding k t v = existsb (C15_proofs.sounding k t) (a :: others)) /\
+  tsorted v = true /\ nnt v = true /\ swf v = true /\ sbal v = true /\ nover v = true.
+Proof. exact Proofs.C15_sound.C15_sound. Qed.
+Print Assumptions C15_sound.
+
+(* the same for the relative view that Sequence.merge leaves fresh, with C07's list-order notion of sounding *)
+Theorem C15_sound_rel : forall (a : list msg) (others : list (list msg)),
+  forallb nnt (a :: others) = true -> forallb sbal (a :: others) = true ->
+  let r := normalise (to_rel (merge_abs a others)) in
+  (forall k t, C07_proofs.sounding k t 0 0 r = existsb (C15_proofs.sounding k t) (a :: others)) /\
+  (forall k, alt k false r = true) /\ C07_proofs.nonneg_waits r = true.
+Proof. exact Proofs.C15_sound.C15_sound_rel. Qed.
+Print Assumptions C15_sound_rel.
+
+(* lifted to the Sequence wrapper (Store.seq_merge = Sequence.merge) *)
+Theorem C15_sound_seq : forall (s s1 : seq) (others os : list seq) (a : list msg) (as_ : list (list msg)),
+  get_abs s = Ok (s1, a) -> refresh_abs_all others = Ok (os, as_) ->
+  forallb nnt (a :: as_) = true -> forallb sbal (a :: as_) = true ->
+  exists m m' v, seq_merge s others = Ok (m, os) /\ get_abs m = Ok (m', v) /\
+    (forall k t, C15_proofs.sounding k t v = existsb (C15_proofs.sounding k t) (a :: as_)) /\
+    tsorted v = true /\ swf v = true.
+Proof. exact Proofs.C15_sound.C15_sound_seq. Qed.
+Print Assumptions C15_sound_seq.
+
+(* time-sorted strictly alternating inputs (swf) satisfy sbal *)
+Theorem C15_sound_swf_inputs : forall ls : list (list msg),
+  forallb tsorted ls = true -> forallb swf ls = true -> forallb sbal ls = true.
+Proof. exact Proofs.C15_sound.swf_inputs_ok. Qed.
+Print Assumptions C15_sound_swf_inputs.
+
+(* what sbal means *)
+Theorem C15_sbal_spec : forall l : list msg, sbal l = true ->
+  forall k, (forall t, 0 <= sdepth k t l) /\ zdelta k l = 0.
+Proof. exact Sound_glue.sbal_spec. Qed.
+Print Assumptions C15_sbal_spec.
+
+(* REFUTED without "no zero-length note" (finding): both inputs are time-sorted, balanced in list order and never
+   have negative depth (they satisfy the hypothesis of C15_sound_partial); the first is a single zero-length note
+   (NOTE_ON and NOTE_OFF of (0,60) at tick 5), the second a real note of (0,60) from tick 5 to 10.  After
+   Sequence.merge nothing sounds: the sort puts NOTE_OFF before NOTE_ON on one tick (off5 on5 on5 off10), normalise
+   drops the first off as an orphan, counts depth 2, is left with an unclosed note and removes its NOTE_ON. *)
+Theorem C15_sound_zero_length_refuted : exists (a b : list msg) (k : k2) (t : Z),
+  forallb tsorted [a; b] = true /\ forallb nnt [a; b] = true /\ forallb balanced [a; b] = true /\
+  forallb wf_depth [a; b] = true /\
+  existsb (C15_proofs.sounding k t) [a; b] = true /\
+  C15_proofs.sounding k t (to_abs (normalise (to_rel (merge_abs a [b])))) = false.
+Proof.
+  exists Proofs.C15_sound.z1, Proofs.C15_sound.z2, (0, 60), 7.
+  destruct Proofs.C15_sound.C15_sound_zero_length_refuted as (H1 & H2 & H3 & H4 & _ & H6 & H7 & _). auto 10.
+Qed.
+Print Assumptions C15_sound_zero_length_refuted.
